@@ -12,6 +12,14 @@ from harness.core import theorems_of  # noqa
 
 kf = json.load(open(V / "known_findings.json"))["findings"]
 man = json.load(open(V / "MANIFEST.json"))
+out = []
+_print = print
+
+
+def print(x):  # noqa: collect, then write between the markers of DESIGN.md when asked to
+    out.append(x)
+
+
 print("| id | theorems (Props/Cxx.lean) | evidence (last quick run) | fixed / open findings |")
 print("|----|---------------------------|---------------------------|----------------------|")
 for c in sorted(man["checks"], key=lambda c: c["property_id"]):
@@ -25,3 +33,11 @@ for c in sorted(man["checks"], key=lambda c: c["property_id"]):
     print(f"| {pid} | {len(names)}: {shown} | {cov['obligations']}/{cov['discharged']} discharged; "
           f"{cov['evaluations']} evaluations, {cov['distinct_nontrivial']} distinct non-trivial, {ev['wall_s']} s | "
           f"fixed: {', '.join(fixed) or '–'}; open: {', '.join(opn) or '–'} |")
+
+if len(sys.argv) > 1 and sys.argv[1] == "--write":
+    d = (V / "DESIGN.md").read_text(encoding="utf-8")
+    a = d.index("<!-- STATUS-TABLE-BEGIN -->") + len("<!-- STATUS-TABLE-BEGIN -->")
+    b = d.index("<!-- STATUS-TABLE-END -->")
+    (V / "DESIGN.md").write_text(d[:a] + "\n" + "\n".join(out) + "\n" + d[b:], encoding="utf-8")
+else:
+    _print("\n".join(out))
